@@ -672,6 +672,8 @@ func compareCase(er *execResult, modelLine string) (string, []string) {
 			switch {
 			case er.kinds[i] == "T":
 				return d, c13
+			case strings.HasPrefix(mres[i], "nf:") == strings.HasPrefix(er.results[i], "nf:"):
+				return d, c05 // both found or both not found: a Trim decides presence only
 			case hasT && !sameNames():
 				return d, c13 // a lookup after a Trim that left different files: the trim's doing
 			case hasT:
